@@ -477,7 +477,6 @@ def execute(sc):
                         f"reached via {op.get('via')} in mode {op.get('mode')}")
                 return ConnectPlan(error=oserror("refused"))
             if verdict is None:
-                probe("no_verdict")
                 return ConnectPlan(error=oserror("refused"))
 
             def accept(conn):
@@ -493,6 +492,8 @@ def execute(sc):
             verdict, info = model.verdict(addr[0], addr[1], proto)
             err = data.server.error
             state["sc"].append((addr[0], addr[1], proto, verdict, bool(err and err.startswith(UNKNOWN))))
+            if verdict is None:
+                probe("no_verdict")
             if verdict is True:
                 state["loop_stage"] = True
                 if err and err.startswith(UNKNOWN):
